@@ -119,7 +119,15 @@ impl Iterator for Query<'_> {
     type Item = Result<Numeric, Error>;
 
     fn next(&mut self) -> Option<Self::Item> {
-        let node = self.children.next()?;
+        // Blanks around the expressions are not results of their own.
+        let node = loop {
+            let node = self.children.next()?;
+
+            if *node.value() != Syntax::WHITESPACE {
+                break node;
+            }
+        };
+
         Some(crate::eval::eval(self, node, Default::default()))
     }
 }
